@@ -91,6 +91,14 @@ Proof. intros H. unfold nthN. rewrite nth_error_upd_neq by lia. reflexivity. Qed
 Lemma nthN_app_l {A} (l l' : list (option A)) i : i < len l -> nthN (l ++ l') i = nthN l i.
 Proof. intros H. unfold nthN. rewrite nth_error_app1 by (unfold len in H; lia). reflexivity. Qed.
 
+Lemma nthN_app {A} (l l' : list (option A)) i :
+  nthN (l ++ l') i = if i <? len l then nthN l i else nthN l' (i - len l).
+Proof.
+  destruct (N.ltb_spec i (len l)) as [H|H]; [apply nthN_app_l; exact H|].
+  unfold nthN, len in *. rewrite nth_error_app2 by lia.
+  replace (N.to_nat (i - N.of_nat (length l))) with (N.to_nat i - length l)%nat by lia. reflexivity.
+Qed.
+
 Lemma nthN_snoc_new {A} (l : list (option A)) x : nthN (l ++ [x]) (len l) = x.
 Proof.
   unfold nthN, len. rewrite Nat2N.id, nth_error_app2 by lia. rewrite Nat.sub_diag. cbn [nth_error].
